@@ -42,6 +42,7 @@ func main() {
 		code = 2
 	}
 	engine.Cleanup()
+	concprops.CleanupPool()
 	os.Exit(code)
 }
 
